@@ -1226,3 +1226,238 @@ func (p *c14Path) Describe(pr *Prog) []string {
 	}
 	return out
 }
+
+// ---------------------------------------------------------------------------
+// Relay slices: collect in one loop, fold in a later one
+
+// c14Relay describes a local slice S that carries one value per iteration from
+// a writing loop to a later reading loop:
+//
+//	S := make([]T, n); for i in 0..n-1 { ...; S[i] = src }; for j in 0..len(S)-1 { use(S[j]) }
+//
+// When Why is empty the following facts were established, each from value
+// identity, dominance and path enumeration (no source layout is matched):
+//
+//	(local)  S is the result of a make whose only uses are element addresses and len(S); an element address
+//	         is only stored through or only loaded from; there is exactly one store instruction, and it stores Src.
+//	(slot)   that store lies in a loop Lw that visits the indices 0,1,2,... below a bound that is the length S was
+//	         made with, its index is the index of the current iteration (so no two iterations share a slot), Src is
+//	         computed in the same iteration (same innermost loop, Src's block dominates the store's), and every
+//	         iteration that goes back to the header of Lw passes the store.
+//	(after)  every load of an element lies outside Lw, behind its header, and the store cannot be reached from it:
+//	         the reads see what the iterations of Lw left behind and nothing written later.
+//	(all)    the loads lie in one loop Lr that visits the indices 0,1,2,... below len(S), each load reads the element
+//	         of the current iteration, every iteration passes a load, and Lr is left only through its header's own
+//	         exit - every element is read.
+//
+// Hence the multiset of values the loads of Lr yield is: Src of iteration k of Lw for every k that Lw completed,
+// and the zero value for the slots Lw did not reach. Whether Lw itself may stop early is the caller's obligation
+// (for C14: `.outputs.all` on Lw).
+type c14Relay struct {
+	Slice *ssa.MakeSlice
+	Store *ssa.Store
+	Src   ssa.Value
+	Loads []*ssa.UnOp
+	Lw    *Loop
+	Lr    *Loop
+	Why   string
+}
+
+// c14RelaySliceOf: v is a load `*(&S[i])` of an element of a made slice; returns the make.
+func c14RelaySliceOf(v ssa.Value) *ssa.MakeSlice {
+	u, ok := v.(*ssa.UnOp)
+	if !ok || u.Op != token.MUL {
+		return nil
+	}
+	ia, ok := u.X.(*ssa.IndexAddr)
+	if !ok {
+		return nil
+	}
+	ms, _ := ia.X.(*ssa.MakeSlice)
+	return ms
+}
+
+// c14RelayStoredIn: the made slice an element of which receives v by a store, if any.
+func c14RelayStoredIn(v ssa.Value) *ssa.MakeSlice {
+	if v.Referrers() == nil {
+		return nil
+	}
+	for _, ref := range *v.Referrers() {
+		st, ok := ref.(*ssa.Store)
+		if !ok || st.Val != v {
+			continue
+		}
+		if ia, isIA := st.Addr.(*ssa.IndexAddr); isIA {
+			if ms, isMS := ia.X.(*ssa.MakeSlice); isMS {
+				return ms
+			}
+		}
+	}
+	return nil
+}
+
+// c14BlockReaches: to can be reached from from over at least one edge.
+func c14BlockReaches(from, to *ssa.BasicBlock) bool {
+	seen := map[*ssa.BasicBlock]bool{}
+	stack := append([]*ssa.BasicBlock{}, from.Succs...)
+	for len(stack) > 0 {
+		b := stack[len(stack)-1]
+		stack = stack[:len(stack)-1]
+		if seen[b] {
+			continue
+		}
+		seen[b] = true
+		if b == to {
+			return true
+		}
+		stack = append(stack, b.Succs...)
+	}
+	return false
+}
+
+// c14IsLenOf: v is len(s).
+func c14IsLenOf(v, s ssa.Value) bool {
+	c, ok := v.(*ssa.Call)
+	if !ok || len(c.Call.Args) != 1 || c.Call.Args[0] != s {
+		return false
+	}
+	b, ok := c.Call.Value.(*ssa.Builtin)
+	return ok && b.Name() == "len"
+}
+
+// c14AnalyseRelay establishes the facts listed at c14Relay for the made slice ms of fn.
+func c14AnalyseRelay(fn *ssa.Function, ms *ssa.MakeSlice, explored *int) *c14Relay {
+	rl := &c14Relay{Slice: ms}
+	fail := func(why string) *c14Relay {
+		if rl.Why == "" {
+			rl.Why = why
+		}
+		return rl
+	}
+	tm := NewTermer(fn)
+	loops := Loops(fn)
+	// (local)
+	var loadIdx []ssa.Value
+	for _, ref := range *ms.Referrers() {
+		switch x := ref.(type) {
+		case *ssa.DebugRef:
+		case *ssa.Call:
+			if !c14IsLenOf(x, ms) {
+				return fail("the slice is handed to a call")
+			}
+		case *ssa.IndexAddr:
+			if x.X != ssa.Value(ms) {
+				return fail("the slice is used as an index")
+			}
+			nSt, nLd := 0, 0
+			for _, r2 := range *x.Referrers() {
+				switch y := r2.(type) {
+				case *ssa.DebugRef:
+				case *ssa.Store:
+					if y.Addr != ssa.Value(x) || y.Val == ssa.Value(x) {
+						return fail("the address of an element is stored")
+					}
+					nSt++
+					if rl.Store != nil && rl.Store != y {
+						return fail("the slice is written by more than one store")
+					}
+					rl.Store, rl.Src = y, y.Val
+				case *ssa.UnOp:
+					if y.Op != token.MUL {
+						return fail("the address of an element is used otherwise than for a load or store")
+					}
+					nLd++
+					rl.Loads = append(rl.Loads, y)
+					loadIdx = append(loadIdx, x.Index)
+				default:
+					return fail("the address of an element escapes")
+				}
+			}
+			if nSt > 0 && nLd > 0 {
+				return fail("an element address is both read and written")
+			}
+		default:
+			return fail("the slice is used otherwise than by indexing and len (it may be aliased or resliced)")
+		}
+	}
+	if rl.Store == nil || len(rl.Loads) == 0 {
+		return fail("the slice is not both written and read")
+	}
+	// (slot)
+	sb := rl.Store.Block()
+	rl.Lw = InnermostLoop(loops, sb)
+	if rl.Lw == nil {
+		return fail("the store into the slice is not in a loop")
+	}
+	idx, bound, ok := scanFromZero(rl.Lw)
+	if !ok {
+		return fail("the loop that fills the slice does not visit the indices 0,1,2,... in order")
+	}
+	if rl.Store.Addr.(*ssa.IndexAddr).Index != idx {
+		return fail("the slot that is written is not the one of the current iteration")
+	}
+	if tm.Of(bound).String() != tm.Of(ms.Len).String() {
+		return fail("the slice is made with length " + tm.Of(ms.Len).String() + " but filled for indices below " + tm.Of(bound).String())
+	}
+	srcIn, isIn := rl.Src.(ssa.Instruction)
+	if !isIn || srcIn.Block() == nil || InnermostLoop(loops, srcIn.Block()) != rl.Lw || !srcIn.Block().Dominates(sb) {
+		return fail("the stored value is not computed in the iteration that stores it")
+	}
+	if _, isPhi := rl.Src.(*ssa.Phi); isPhi && srcIn.Block() == rl.Lw.Header {
+		return fail("the stored value is carried over from an earlier iteration")
+	}
+	wpaths, complete := EnumIterPaths(fn, rl.Lw, 500)
+	if !complete {
+		return fail("too many paths through the loop that fills the slice")
+	}
+	*explored += len(wpaths)
+	for _, ip := range wpaths {
+		if ip.End == "back" && !ip.OnPath(rl.Store) {
+			return fail("an iteration of the filling loop can go on to the next element without storing its value")
+		}
+	}
+	// (after), (all)
+	for i, ld := range rl.Loads {
+		lb := ld.Block()
+		if rl.Lw.Blocks[lb] || !rl.Lw.Header.Dominates(lb) || lb == sb || c14BlockReaches(lb, sb) {
+			return fail("an element is read before the filling loop is over")
+		}
+		lr := InnermostLoop(loops, lb)
+		if lr == nil {
+			return fail("an element is read outside a loop over the slice")
+		}
+		if rl.Lr != nil && rl.Lr != lr {
+			return fail("the slice is read by more than one loop")
+		}
+		rl.Lr = lr
+		jdx, jbound, okr := scanFromZero(lr)
+		if !okr || loadIdx[i] != jdx {
+			return fail("the reading loop does not read the element of the current iteration of a scan 0,1,2,...")
+		}
+		if !c14IsLenOf(jbound, ms) && tm.Of(jbound).String() != tm.Of(ms.Len).String() {
+			return fail("the reading loop runs below " + tm.Of(jbound).String() + ", not below the length of the slice")
+		}
+	}
+	rpaths, complete := EnumIterPaths(fn, rl.Lr, 500)
+	if !complete {
+		return fail("too many paths through the loop that reads the slice")
+	}
+	*explored += len(rpaths)
+	for _, ip := range rpaths {
+		if ip.End == "back" {
+			read := false
+			for _, ld := range rl.Loads {
+				read = read || ip.OnPath(ld)
+			}
+			if !read {
+				return fail("an iteration of the reading loop does not read its element")
+			}
+			continue
+		}
+		if len(ip.Blocks) == 2 && ip.Blocks[0] == rl.Lr.Header {
+			continue // the header's own exit: all elements were read
+		}
+		return fail("the reading loop can be left before all elements were read")
+	}
+	return rl
+}
